@@ -49,7 +49,7 @@ func init() {
 		ID:    "C19",
 		Level: "exploration",
 		Rule: "collections of 0-12 objects whose five scalar kinds (string, int64, float64, bool, datetime; pointer-valued so null is expressible) mirror the scalar fields of a bolt store holding the same values; the collection is iterated in a fresh random order for every query. " +
-			"Filters over non-set symbols (all operators, = null / != null, and/or/not) x sort specifications of 0-5 fields x the complete 10 x 10 skip/limit boundary grid. Three-way comparison: ObjectStore.QueryEntities (ids in order, count) vs bolt QueryIds vs the reference evaluator + sort/page oracle, " +
+			"Filters over non-set symbols (all operators, = null / != null, and/or/not) x sort specifications of 0-5 fields (each followed by its direction-flipped twin and a repeat on the same store instance; plus 6-8 field sorts compared between the two stores only) x the complete 10 x 10 skip/limit boundary grid. Three-way comparison: ObjectStore.QueryEntities (ids in order, count) vs bolt QueryIds vs the reference evaluator + sort/page oracle, " +
 			"so a defect common to both copies of the paging code is still seen. non-trivial = distinct (query, dataset) whose page is a proper non-empty sub-sequence or a boundary point",
 		Assumptions: []string{"only scalar symbols (the object store has no set symbols)", "bare bool symbols holding null and icontains over non-ASCII are executed but not judged"},
 		Plan: func(tier core.Tier, seed int64) int {
@@ -118,7 +118,7 @@ func runC19(c *core.Ctx, idx int) {
 			n := int64(len(match))
 			// unsorted, a random sort, then the same symbols with every direction flipped and the first one again: the
 			// object store instance is shared, so anything it remembers about an earlier sort would show
-			nSorts := 4
+			nSorts := 5
 			var firstSort []qx.SortF
 			for si := 0; si < nSorts; si++ {
 				var sortSpec []qx.SortF
@@ -138,6 +138,18 @@ func runC19(c *core.Ctx, idx int) {
 					c.Count("flipped_sorts", 1)
 				case 3:
 					sortSpec = firstSort
+				case 4:
+					// more than five sort fields: five low-cardinality keys (repeats allowed) so that rows tie on them, then
+					// one to three discriminating ones; compared between the two stores only
+					for k := 0; k < 5; k++ {
+						desc := r.Bool()
+						sortSpec = append(sortSpec, qx.SortF{Sym: core.Pick(r, []string{"b", "grp", "owner"}), Desc: desc, Dir: map[bool]string{true: "desc", false: core.Pick(r, []string{"", "asc"})}[desc]})
+					}
+					for k, m := 0, 1+r.Intn(3); k < m; k++ {
+						desc := r.Bool()
+						sortSpec = append(sortSpec, qx.SortF{Sym: core.Pick(r, []string{"s", "ism", "ibig", "flt", "t"}), Desc: desc, Dir: map[bool]string{true: "desc", false: core.Pick(r, []string{"", "asc"})}[desc]})
+					}
+					c.Count("sorts_with_more_than_five_fields", 1)
 				}
 				for _, f := range sortSpec {
 					c.Cover("sort_type", f.Sym)
@@ -175,7 +187,7 @@ func runC19(c *core.Ctx, idx int) {
 						if !sameIds(oids, bids) || ocount != bcount {
 							c.Violationf("C19 object store differs from the bolt store: "+gridKey, info, "query %q: object store %q count %d, bolt %q count %d", text, oids, ocount, bids, bcount)
 						}
-						if judged {
+						if judged && len(sortSpec) <= 5 {
 							wantIds, wantCount := env.w.Page(qx.Things, match, q)
 							if !sameIds(oids, wantIds) || ocount != wantCount {
 								c.Violationf("C19 object store differs from the reference: "+gridKey, info, "query %q: object store %q count %d, reference %q count %d", text, oids, ocount, wantIds, wantCount)
